@@ -418,10 +418,10 @@ def spec_tie(H, ctx, structs):
     import time
     t0 = time.time()
     q = ctx.tier == "quick"
-    budget = 4000 if q else 60000
+    budget = 3000 if q else 60000
     picked, nclasses = c05spec.sample(structs, ctx.rng, budget)
     refs, reffiles = reference_structs(1000)
-    refpicked, _ = c05spec.sample(refs, ctx.rng, 1200 if q else 20000)
+    refpicked, _ = c05spec.sample(refs, ctx.rng, 800 if q else 20000)
     allp = picked + refpicked
     codes = c05spec.coq_codes(allp)
     viol = []
